@@ -117,8 +117,9 @@ def main(argv=None):
     seed = int(os.environ.get("VERIF_SEED", "0") or 0)
     t_start = time.time()
     ensure_deps()
-    os.makedirs(os.path.join(VERIF, "evidence"), exist_ok=True)
-    rdir = os.path.join(VERIF, "replays", prop)
+    OUT = os.environ.get("PYVC_OUT", VERIF)          # scratch runs (mutant matrix) write elsewhere
+    os.makedirs(os.path.join(OUT, "evidence"), exist_ok=True)
+    rdir = os.path.join(OUT, "replays", prop)
     os.makedirs(rdir, exist_ok=True)
     for f in os.listdir(rdir):
         os.unlink(os.path.join(rdir, f))
@@ -414,7 +415,7 @@ def main(argv=None):
         coverage['evaluations'] = sum(b['evaluations'] for b in bounded.values())
     ev = dict(property_id=prop, tier=tier, seed=seed, level=level, coverage=coverage,
               assumptions=pinfo.get('assumptions', []), wall_s=round(wall, 2), violations=len(violations))
-    with open(os.path.join(VERIF, "evidence", "%s.json" % prop), 'w') as f:
+    with open(os.path.join(OUT, "evidence", "%s.json" % prop), 'w') as f:
         json.dump(ev, f, indent=1, default=str)
 
     for l in known_lines:
